@@ -80,6 +80,9 @@ def lists(pe):
     out['bare-name'] = [prim(pe, {'A': 'c8'}, 'bn0'), prim(pe, {'A': 'irr'}, 'bn1')]
     out['tiny-and-huge'] = [prim(pe, {'A|r1': 'c12'}, 'th0', mean=2e-11, sigma=3e-12), prim(pe, {'A|r1': 'irr'}, 'th1', mean=-4e13, sigma=5e12),
                             prim(pe, {'A|r1': 'c8'}, 'th2', mean=1e-11, sigma=1e-12) * pe.cov_Obs(1e-6, 1e-14, 'cvtiny')]
+    # a large mean with small, precisely known fluctuations: the replica means differ by far less than 1e-5 of the mean
+    out['big-mean'] = [prim(pe, {'A|r1': 'c12', 'A|r2': 'c8'}, 'bm0', mean=0.4) * 1e-3 + 1e6, prim(pe, {'A|r1': 'c12'}, 'bm1', mean=0.1) * 1e-3 + 1e6,
+                       prim(pe, {'A|r1': 'c8', 'A|r2': 'irr', 'A|r3': 'ev'}, 'bm2', mean=0.2) * 1e-6 - 250.0]
     out['long-ensemble-names'] = [prim(pe, {'ENS|r1': 'c12', 'ENS|r2': 'c8'}, 'ln0'), prim(pe, {'ENS|r2': 'irr'}, 'ln1'), prim(pe, {'OTHER|cfg7': 'ev'}, 'ln2')]
     # an observable that is constant on one whole replica (all 0, all 3) while it fluctuates on another one
     r = alpha.rng('c12', 'const-rep')
@@ -151,7 +154,9 @@ def same(a, b, nm, pe):
         if type(a.idl[n]) is not type(b.idl[m]):
             return 'configuration list form of %s' % n
         csc = max(sc, abs(a.r_values[n]))
-        if not np.all(np.abs(a.deltas[n] - b.deltas[m]) <= 1e-13 * csc):
+        # fluctuations are stored as such (plus the offset of the replica mean): they come back on their own scale
+        dsc = max(np.max(np.abs(a.deltas[n])), abs(a.r_values[n] - a.value))
+        if not np.all(np.abs(a.deltas[n] - b.deltas[m]) <= 1e-13 * dsc + 1e-300):
             return 'fluctuations of %s differ by %g' % (n, np.max(np.abs(a.deltas[n] - b.deltas[m])))
         if not abs(a.r_values[n] - b.r_values[m]) <= 1e-13 * csc:
             return 'replica mean of %s: %r -> %r' % (n, a.r_values[n], b.r_values[m])
